@@ -84,6 +84,11 @@ def build(ctx, rule):
     if m.worker is None:
         raise AnalysisError(rule, pf.where(), "cannot find where worker processes are created (mp.Process(target=...))")
     m.proc_ctor_calls = [c.node for c in m.ctor_sites]
+    from ..core import hoist_calls
+
+    from ..core import fold_consts
+
+    m.worker = fold_consts(tail_inlined(repo, hoist_calls(repo, m.worker)))  # helpers of the worker (tallies, formatting) are read inlined
     ctx.analysed_func(m.parent)
     ctx.analysed_func(m.worker)
     m.pqueues = set()
